@@ -1,6 +1,7 @@
 SPECIFICATION Spec
 CONSTANTS Units = {1,2,3}
   MaxSusp = 2
+  EarlyReturn = FALSE
   DecFirst = FALSE
 INVARIANT NoEarlyStop
 INVARIANT CounterOK
